@@ -67,6 +67,22 @@ add("C09", "formula", "exploration", "runtime monitor: round-trip relation parse
     "All (outer, inner, side) operator classes with varied leaves in all 30 language/locale pairs plus random deeper trees; structural equality of the trees.",
     FORMULA_NOTE)
 
+STRUCT_NOTE = ("Trusted base: the snapshot projection S, the reference-shift model RS (map_pos / expected_target in structural.rs) and the "
+               "engine's parser used to read reference targets out of displayed formulas. Ranges the statement is silent about (lost edge, "
+               "straddling a moved block) and formulas that transitively read such cells are not judged; counts are in the evidence.")
+add("C12", "structure", "exploration", "runtime monitor: before/after snapshots compared through the reference-shift model RS for row/column insertion",
+    "Every pre-existing cell fact must be found at its RS image; every reference must read the RS image of what it read; unaffected formulas keep their values.",
+    STRUCT_NOTE)
+add("C13", "structure", "exploration", "runtime monitor: before/after snapshots compared through RS for row/column deletion",
+    "Cells outside the band at their RS image; references into the band become #REF!; formulas that (transitively) read no deleted cell keep their values.",
+    STRUCT_NOTE)
+add("C14", "structure", "exploration", "runtime monitor: metamorphic identity insert(k at p); delete(k at p) on full snapshots, premise checked on the intermediate state",
+    "Full snapshot equality (contents, values, formula texts, styles, links, row/column sizes and styles) after the pair of edits.",
+    STRUCT_NOTE)
+add("C15", "structure", "exploration", "runtime monitor: before/after snapshots compared through the block-move permutation of RS, including row/column descriptors",
+    "Cell facts and row/column sizes, styles and hidden flags at their permuted position; references of the classes the statement lists must follow their cells.",
+    STRUCT_NOTE)
+
 NOT_YET = {}
 
 def main():
